@@ -440,6 +440,9 @@ Proof.
     destruct (do_reload step e c (set_hooks g [])) as [r1 g1] eqn:R.
     apply RL in R. simpl in R.
     destruct r1; injection H as <- <-; simpl; exact R.
+  - unfold do_validate in H. destruct (negb (parse_ok c)); [injection H as <- <-; reflexivity|].
+    destruct (exec_effs step e (c_effs c) g l0) as [[r1 g1] l] eqn:E1.
+    injection H as <- <-. exact (x_lock _ _ _ (exec_effs_ext _ _ _ _ _ _ _ _ E1)).
 Qed.
 
 Lemma attempt_no_hang m step e c g r g' :
@@ -463,6 +466,9 @@ Proof.
     destruct (do_reload step e c (set_hooks g [])) as [r1 g1] eqn:R.
     apply RL in R; [|exact L].
     destruct r1; injection H as <- <-; congruence.
+  - unfold do_validate in H. destruct (negb (parse_ok c)); [injection H as <- <-; discriminate|].
+    destruct (exec_effs step e (c_effs c) g l0) as [[r1 g1] l] eqn:E1.
+    injection H as <- <-. eapply exec_effs_no_hang; eauto.
 Qed.
 
 (* ------------------------------------------------------------------ a failed attempt loses nothing *)
@@ -493,6 +499,9 @@ Proof.
       constructor; simpl in *; auto. exists O. simpl. symmetry. apply app_nil_r.
     + apply failed_reload_grow in R; [|discriminate]. destruct R as [R1 R2 R3 R4 R5 R6].
       constructor; simpl in *; auto. exists O. simpl. symmetry. apply app_nil_r.
+  - unfold do_validate in H. destruct (negb (parse_ok c)); [injection H as <- <-; apply grow_refl|].
+    destruct (exec_effs step e (c_effs c) g l0) as [[r1 g1] l] eqn:E1.
+    injection H as <- <-. apply ext_grow. eapply exec_effs_ext; eauto.
 Qed.
 
 (* the SIGUSR1 path puts the hook registry back exactly *)
@@ -586,6 +595,9 @@ Proof.
     destruct (do_reload step e c (set_hooks g [])) as [r1 g1] eqn:R.
     apply reload_wf in R; [|exact W].
     destruct r1; injection H as <- <-; exact R.
+  - unfold do_validate in H. destruct (negb (parse_ok c)); [injection H as <- <-; exact W|].
+    destruct (exec_effs step e (c_effs c) g l0) as [[r1 g1] l] eqn:E1.
+    injection H as <- <-. unfold wf. rewrite (x_insts _ _ _ (exec_effs_ext _ _ _ _ _ _ _ _ E1)). exact W.
 Qed.
 
 (* ------------------------------------------------------------------ harmless failures are the identity *)
@@ -660,6 +672,13 @@ Proof.
     assert (W' : wf (set_hooks g [])) by exact W.
     destruct (RL _ _ _ W' NL LS R NR1) as (A1 & A2 & A3 & A4 & A5 & A6 & A7). simpl in *.
     destruct r1; injection H as <- <-; try congruence; apply gstate_eq; simpl; auto.
+  - unfold do_validate in H. destruct (negb (parse_ok c)); [injection H as <- <-; reflexivity|].
+    destruct (exec_effs step e (c_effs c) g l0) as [[r1 g1] l] eqn:E1.
+    injection H as <- <-.
+    pose proof (exec_effs_ext _ _ _ _ _ _ _ _ E1) as X.
+    pose proof (exec_effs_no_auth_same _ _ _ _ _ _ _ _ H2 E1) as [C1 L1].
+    pose proof (exec_effs_hooks_same _ _ _ _ _ _ _ _ H1 E1) as K1.
+    destruct X. apply gstate_eq; auto.
 Qed.
 
 (* ------------------------------------------------------------------ histories *)
